@@ -397,19 +397,26 @@ Qed.
 Lemma enforced_mono a1 a2 f : action_le a1 a2 = true -> enforced a2 f = true -> enforced a1 f = true.
 Proof. destruct a1, a2, f; cbn; congruence. Qed.
 
+Lemma implb_elim (x y : bool) : (negb x || y) = true -> x = true -> y = true.
+Proof. destruct x, y; cbn; congruence. Qed.
+
+Lemma not_demanded_caps sc : plugin_demanded sc = false -> caps_of sc = [].
+Proof. unfold plugin_demanded, caps_of, usable_caps. destruct (s_plugin_attr sc); cbn; congruence. Qed.
+
 (* the plugin / attribute problems depend on the level only through the
    action of revocation, and relaxing it can only remove problems *)
 Lemma pap_mono l1 l2 sc : wf_sc sc = true -> action_le (l_rev l1) (l_rev l2) = true ->
   plugin_or_attribute_problem l2 sc = true -> plugin_or_attribute_problem l1 sc = true.
 Proof.
-  intros W. pose proof (caps_of_shapes sc W) as SH.
+  intros W. pose proof (caps_of_shapes sc W) as SH. pose proof (not_demanded_caps sc) as ND.
   destruct l1 as [a1 t1 e1 r1], l2 as [a2 t2 e2 r2]. cbn [l_rev].
   unfold plugin_or_attribute_problem, plugin_exec_problem, nothing_processes, noncrit_unprocessed, asked, caps_to_verify.
   cbn [l_rev].
-  generalize (s_nonstring_crit sc) (plugin_unusable sc) (plugin_demanded sc) (has_critical sc).
-  intros ns pu dem hc.
-  assert (G : forall x y : bool, (negb x || y) = true -> x = true -> y = true) by (intros [] []; cbn; congruence).
-  intros LE. apply G. revert LE. apply G. clear G.
+  destruct (plugin_demanded sc); [clear ND | rewrite (ND eq_refl) in *; clear ND].
+  all: generalize (s_nonstring_crit sc) (plugin_unusable sc) (has_critical sc).
+  all: intros ns pu hc.
+  all: intros LE; apply implb_elim; revert LE; apply implb_elim.
+  2:{ clear. enum_all. }
   unfold shapes in SH. cbn [In] in SH.
   destruct SH as [<-|[<-|[<-|[<-|[<-|[]]]]]];
     (destruct (s_presp sc) as [|p ti rv];
@@ -480,4 +487,55 @@ Qed.
 Lemma model_spec_ok_refuted : exists i, wf i = true /\ fp i = 1%N /\ spec_ok i (model i) = false.
 Proof.
   exists (mk_input "strict" [("revocation", "skip")] f12b_scenario). repeat split; vm_compute; reflexivity.
+Qed.
+
+(* ---------- the statements of props/C02_Property.v that combine several lemmas ---------- *)
+Lemma levels_thm : forall l : level,
+  (In l reachable_levels <-> In l all_24)
+  /\ (In l all_24 <-> (l_auth l <> Skip /\ l_ts l <> Skip /\ l_exp l <> Skip))
+  /\ NoDup all_24 /\ List.length all_24 = 24%nat.
+Proof.
+  exact (fun l => conj (reachable_iff l) (conj (all_24_spec l) (conj all_24_nodup all_24_length))).
+Qed.
+
+Lemma levels_legal_thm : forall name ov nm enf,
+  get_level name ov = inr (nm, enf) ->
+  (name = "skip" /\ ov = [])
+  \/ (In name base_names /\ Forall legal_entry ov
+      /\ lookup_default "integrity" enf = "enforce" /\ In (level_of enf) all_24).
+Proof.
+  intros name ov nm enf H. destruct (string_dec name "skip") as [->|NS].
+  - left. split; [reflexivity | exact (get_level_skip ov nm enf H)].
+  - right. exact (get_level_sound name ov nm enf NS H).
+Qed.
+
+Lemma exact_thm : forall lvl sc, wf_sc sc = true ->
+  (accepted (verify_core lvl sc) = false <->
+   s_integrity_ok sc = false \/ enforced_failure lvl sc = true \/ plugin_or_attribute_problem lvl sc = true).
+Proof.
+  intros lvl sc W. rewrite (exact_iff lvl sc W). exact (should_fail_impl_iff lvl sc).
+Qed.
+
+Lemma log_reports_thm : forall lvl sc, wf_sc sc = true -> accepted (verify_core lvl sc) = true ->
+  o_results (verify_core lvl sc) = expected_results lvl sc
+  /\ forall t, t <> TIntegrity -> act_of lvl t = Log -> failed_fact sc t = true ->
+               In (mk_res t Log true) (o_results (verify_core lvl sc)).
+Proof.
+  intros lvl sc W A. split; [exact (accepted_results lvl sc W A)|].
+  intros t. exact (log_reported lvl sc t W A).
+Qed.
+
+Lemma capability_replaces_thm : forall lvl sc caps, usable_caps sc = Some caps ->
+  (has_cap CapTI caps = true ->
+     (forall b, verify_core lvl (set_identity b sc) = verify_core lvl sc)
+     /\ identity_failed sc = match s_presp sc with PResp _ (Some false) _ => true | _ => false end)
+  /\ (has_cap CapRev caps = true ->
+     (forall b, verify_core lvl (set_rev_ok b sc) = verify_core lvl sc)
+     /\ (wf_sc sc = true -> o_rev_called (verify_core lvl sc) = false)
+     /\ revocation_failed sc = match s_presp sc with PResp _ _ (Some false) => true | _ => false end).
+Proof.
+  intros lvl sc caps U. split; intros H.
+  - split; [intros b; exact (replaces_identity lvl sc caps b U H) | exact (proj1 (replaces_verdict sc caps U) H)].
+  - split; [intros b; exact (replaces_revocation lvl sc caps b U H)|].
+    split; [intros W; exact (replaces_rev_call lvl sc caps W U H) | exact (proj2 (replaces_verdict sc caps U) H)].
 Qed.
